@@ -384,3 +384,77 @@ def other_data(rnd: random.Random, spec: dict) -> dict:
 def permuted_data(spec: dict) -> dict:
     """the same observations in another order (rotation by one)"""
     return {c: v[1:] + v[:1] for c, v in spec['data'].items()}
+
+
+# ---------------------------------------------------------------------------
+# frame index styles, produced through the routes a user has
+INDEX_STYLES = ('default', 'sorted', 'shuffled', 'remove', 'extract_reordered', 'offset', 'strings', 'duplicated')
+
+
+def routed_database(spec_data: dict, style: str, rnd: random.Random, name: str = 'c18idx'):
+    """a Database holding the observations of `spec_data` (possibly in another order) whose frame index has the given
+    style, built the way a user gets such a frame.  Returns (Database, data by POSITION as {col: [values]}, index labels).
+    Observation i of the result is, by definition, the i-th row of the frame (position)."""
+    import pandas as pd
+    from biogeme.database import Database
+
+    n = len(next(iter(spec_data.values())))
+    base = pd.DataFrame({c: [float(x) for x in spec_data[c]] for c in spec_data})
+    if style == 'default':
+        db = Database(name, base)
+    elif style == 'sorted':
+        # a frame sorted on one of its variables keeps the labels of the unsorted frame
+        col = rnd.choice(list(spec_data))
+        db = Database(name, base.sort_values(col, ascending=bool(rnd.getrandbits(1))))
+    elif style == 'shuffled':
+        f = base.sample(frac=1.0, random_state=rnd.randrange(10**6))
+        for _ in range(20):
+            if n < 2 or list(f.index) != list(range(n)):
+                break
+            f = base.sample(frac=1.0, random_state=rnd.randrange(10**6))
+        db = Database(name, f)
+    elif style == 'remove':
+        # extra observations flagged for exclusion, interleaved, then Database.remove: labels with gaps
+        k = rnd.randint(1, 3)
+        extra = pd.DataFrame({c: [round(rnd.uniform(-2, 2), 3) for _ in range(k)] for c in spec_data})
+        base2 = base.copy()
+        base2['excluded'] = 0.0
+        extra['excluded'] = 1.0
+        pos = sorted(rnd.sample(range(n + k), k))
+        rows, bi, ei = [], 0, 0
+        for j in range(n + k):
+            if j in pos:
+                rows.append(extra.iloc[ei]); ei += 1
+            else:
+                rows.append(base2.iloc[bi]); bi += 1
+        full = pd.DataFrame(rows).reset_index(drop=True)
+        db = Database(name, full)
+        from biogeme.expressions import Variable
+
+        db.remove(Variable('excluded'))
+    elif style == 'extract_reordered':
+        # Database.extract_rows with positions in another order (and one observation more than needed left out)
+        extra = pd.DataFrame({c: [round(rnd.uniform(-2, 2), 3)] for c in spec_data})
+        full = pd.concat([base, extra], ignore_index=True)
+        order = list(range(n))
+        rnd.shuffle(order)
+        if order == list(range(n)) and n > 1:
+            order = order[1:] + order[:1]
+        db = Database(name, full).extract_rows(order)
+    elif style == 'offset':
+        f = base.copy()
+        f.index = range(100, 100 + n)
+        db = Database(name, f)
+    elif style == 'strings':
+        f = base.copy()
+        f.index = [f'obs_{chr(97 + (7 * j) % 26)}{j}' for j in range(n)]
+        db = Database(name, f)
+    elif style == 'duplicated':
+        # two samples stacked with pd.concat: labels 0..k-1 then 0..n-k-1
+        k = max(1, n // 2)
+        db = Database(name, pd.concat([base.iloc[:k], base.iloc[k:].reset_index(drop=True)]))
+    else:
+        raise ValueError(style)
+    frame = db.data
+    data = {c: [float(v) for v in frame[c].to_numpy()] for c in spec_data}
+    return db, data, [str(x) for x in frame.index]
